@@ -18,6 +18,8 @@ TABLE = {
     "c02_bundle_constant_inlined.diff": ("contracts.c20b", "_decide_materialization", None),
     "c03_data_also_to_hold_gate.diff": ("contracts.c03", "_setup_standard_write", None),
     "c03_hold_gate_ge.diff": ("contracts.c03", "_create_standard_memory", None),
+    "c04_fold_when_either.diff": ("contracts.c04", "MemoryBuilder.handle_write", None),
+    "c05_reader_skips_multiplier.diff": ("contracts.c04", "MemoryBuilder.handle_read", None),
     "c05_multiplier_reads_both_wires.diff": ("contracts.c05", "_create_latch_multiplier", None),
     "c05_rs_hold_row_or.diff": ("contracts.c05", "_latch_placement", None),
     "c07_arith_wires_swapped.diff": ("contracts.c07", "_configure_arithmetic", None),
